@@ -184,11 +184,12 @@ def describe(v):
 
 
 class State:
-    __slots__ = ("det", "ref", "rsw")
+    __slots__ = ("det", "ref", "rsw", "sib")
 
-    def __init__(self, det, ref, rsw=False):
+    def __init__(self, det, ref, rsw=False, sib=()):
         self.det, self.ref = det, ref
         self.rsw = rsw      # "read since the last write": abstraction of possible hidden cache state, part of canon
+        self.sib = sib      # dtypes validly assigned to a SIBLING container of another kind so far (part of canon)
 
 
 class Model:
@@ -266,6 +267,15 @@ class Model:
             # the detector-level resets: the full one and the partial one made between the steps of a
             # non-destructive readout (pixel content kept, everything else emptied)
             ops += [["detempty", "full"], ["detempty", "keep"]]
+        if self.kind != "phase":
+            # Detector.replace_data (what the load_detector model calls): all-or-nothing
+            ops += [["replace", "geo_fresh"], ["replace", "geo_emptied"], ["replace", "same_full"], ["replace", "same_fresh"]]
+        # a valid assignment to a sibling container of ANOTHER kind (its dtype is illegal for the container under test):
+        # what one bucket accepted must not become acceptable for another
+        if self.kind == "image":
+            ops += [["sib", "float64"], ["sib", "float32"]]
+        elif self.kind in ("pixel", "signal", "phase"):
+            ops += [["sib", "uint16"], ["sib", "uint8"]]
         return ops
 
     # -- seqx interface
@@ -280,7 +290,7 @@ class Model:
     def canon(self, st):
         # stored bytes + one bit of history (was the container read since it was last modified?), so that a state
         # reached through a read is expanded separately: read-triggered caching would otherwise be merged away
-        return (canon_value(self.cont(st)._array), st.rsw)
+        return (canon_value(self.cont(st)._array), st.rsw, st.sib)
 
     def value_of(self, name):
         return make_da(name) if (name.startswith("da_") or name == "nd_3d") else make_array(name)
@@ -354,6 +364,23 @@ class Model:
                 c.update(None)
             elif name == "eq":
                 self._eq(new, c, op[1], bad)
+            elif name == "replace":
+                geo = (COLS, ROWS) if op[1].startswith("geo") else (ROWS, COLS)
+                src = mk.detector(self.det_type, *geo)
+                if op[1] == "geo_emptied":
+                    src.empty()
+                if op[1] == "same_full":
+                    src.photon.array = np.full(geo, 5.0)
+                    src.pixel.array = np.full(geo, 6.0)
+                    src.signal.array = np.full(geo, 7.0)
+                    src.image.array = np.full(geo, 8, dtype="uint16")
+                val = getattr(src, kind)._array
+                new.det.replace_data(src)
+                c = getattr(new.det, kind)
+            elif name == "sib":
+                other = getattr(new.det, "signal" if kind == "image" else "image")
+                other.array = np.ones((ROWS, COLS), dtype=op[1])
+                new.sib = tuple(sorted(set(new.sib) | {op[1]}))
             elif name == "detempty":
                 new.det.empty(reset=(op[1] == "full"))
                 c = getattr(new.det, kind)
@@ -376,7 +403,22 @@ class Model:
 
         # reference model
         ref_before = st.ref
-        if name in ("read", "eq"):
+        if name == "replace":
+            if op[1].startswith("geo"):
+                if exc is None:
+                    bad("invalid-accepted", f"replace_data with a detector of shape {(COLS, ROWS)} was accepted; container now "
+                        f"{describe(c._array)}")
+                # (that the content stays untouched is checked for every raising operation)
+            elif exc is not None:
+                bad("valid-rejected", f"replace_data with a detector of the same shape raised {type(exc).__name__}: {exc}")
+            elif canon_value(val) != after:
+                bad("assign-value", f"replace_data: the source held {describe(val)} but the container holds {describe(c._array)}")
+        elif name == "sib":
+            if exc is not None:
+                bad("read-raised", f"a valid assignment to the sibling bucket raised {type(exc).__name__}: {exc}")
+            if after != before:
+                bad("read-changed", "an assignment to a sibling bucket changed this container")
+        elif name in ("read", "eq"):
             if exc is not None:
                 bad("read-raised", f"read-only operation raised {type(exc).__name__}: {exc}")
             if after != before:
